@@ -166,6 +166,8 @@ enum HostGen {
     Idn { labels: Vec<u16>, rule: u16 },
     Ip(u8),
     Fixed(u8),
+    /// a registrable name followed by further labels and another rule ("example.com.evil.net")
+    Nested { labels: Vec<u16>, rule: u16, labels2: Vec<u16>, rule2: u16 },
 }
 
 #[derive(Clone, Debug)]
@@ -186,6 +188,10 @@ enum RpGen {
     DoubleDot,
     Upper(u16),
     Rule(u16),
+    /// label-aligned window that is not (necessarily) a tail: from the i-th label start to the j-th label end
+    Window(u16, u16),
+    /// the host with its last characters cut off
+    HeadCut(u16),
 }
 
 #[derive(Clone, Debug)]
@@ -203,7 +209,10 @@ struct PairGen {
 const LABELS: [&str; 14] = ["www", "example", "evil-example", "a", "my-1password", "login", "x_y", "b2", "evilexample", "foo", "accounts", "xn--85x722f", "xn--bcher-kva", "1password"];
 const SCHEMES: [&str; 7] = ["https", "https", "https", "HTTPS", "http", "ftp", "wss"];
 const SINGLES: [&str; 5] = ["localhost", "intranet", "xlocalhost", "com", "localhost2"];
-const FIXED_HOSTS: [&str; 10] = [
+const FIXED_HOSTS: [&str; 13] = [
+    "example.com.evil.net",
+    "accounts.example.com.evil.net",
+    "www.example.com",
     "x.localhost",
     "localhost.example.com",
     "evilexample.com",
@@ -225,6 +234,8 @@ fn pair_strategy() -> impl Strategy<Value = PairGen> {
         2 => (proptest::collection::vec(any::<u16>(), 0..3), any::<u16>()).prop_map(|(labels, rule)| HostGen::Idn { labels, rule }),
         1 => any::<u8>().prop_map(HostGen::Ip),
         2 => any::<u8>().prop_map(HostGen::Fixed),
+        2 => (proptest::collection::vec(any::<u16>(), 1..3), any::<u16>(), proptest::collection::vec(any::<u16>(), 1..3), any::<u16>())
+            .prop_map(|(labels, rule, labels2, rule2)| HostGen::Nested { labels, rule, labels2, rule2 }),
     ];
     let rp = prop_oneof![
         1 => Just(RpGen::Absent),
@@ -240,6 +251,8 @@ fn pair_strategy() -> impl Strategy<Value = PairGen> {
         1 => Just(RpGen::DoubleDot),
         1 => any::<u16>().prop_map(RpGen::Upper),
         1 => any::<u16>().prop_map(RpGen::Rule),
+        3 => (any::<u16>(), any::<u16>()).prop_map(|(a, b)| RpGen::Window(a, b)),
+        1 => any::<u16>().prop_map(RpGen::HeadCut),
     ];
     (any::<bool>(), any::<u8>(), proptest::option::weighted(0.3, any::<u16>()), host, rp, any::<bool>(), any::<u8>(), proptest::bool::weighted(0.05)).prop_map(|(android, scheme, port, host, rp, allow_localhost, provider, trailing_dot)| PairGen {
         android: android && scheme % 3 == 0,
@@ -280,6 +293,13 @@ fn materialize(g: &PairGen, psl: &Psl, pools: &Pools) -> Case {
         }
         HostGen::Ip(i) => IPS[*i as usize % IPS.len()].to_string(),
         HostGen::Fixed(i) => FIXED_HOSTS[*i as usize % FIXED_HOSTS.len()].to_string(),
+        HostGen::Nested { labels, rule, labels2, rule2 } => {
+            let mut v: Vec<String> = labels.iter().map(lab).collect();
+            v.push(pools.rules[idx(*rule, pools.rules.len())].clone());
+            v.extend(labels2.iter().map(lab));
+            v.push(pools.rules[idx(*rule2, pools.rules.len())].clone());
+            v.join(".")
+        }
     };
     if g.trailing_dot {
         host.push('.');
@@ -324,6 +344,22 @@ fn materialize(g: &PairGen, psl: &Psl, pools: &Pools) -> Case {
         RpGen::DoubleDot => Some(h.replacen('.', "..", 1)),
         RpGen::Upper(i) => Some(h[boundaries[idx(*i, boundaries.len())]..].to_uppercase()),
         RpGen::Rule(i) => Some(pools.rules[idx(*i, pools.rules.len())].clone()),
+        RpGen::Window(a, b) => {
+            let ends: Vec<usize> = h.match_indices('.').map(|(i, _)| i).chain(std::iter::once(h.len())).collect();
+            let start = boundaries[idx(*a, boundaries.len())];
+            let later: Vec<usize> = ends.iter().copied().filter(|e| *e > start).collect();
+            match later.is_empty() {
+                true => Some(h.to_string()),
+                false => Some(h[start..later[idx(*b, later.len())]].to_string()),
+            }
+        }
+        RpGen::HeadCut(i) => {
+            let mut p = h.len().saturating_sub(1 + idx(*i, 4.min(h.len().max(1))));
+            while !h.is_char_boundary(p) {
+                p -= 1;
+            }
+            Some(h[..p].to_string())
+        }
     };
     let provider = match g.provider % 8 {
         0..=3 => ProviderKind::Default,
